@@ -27,14 +27,7 @@ TRANSIENT = {"new_state", "queue", "reboot"}
 
 def with_helpers(analysis, info):
     """The function's own statements plus those of private methods of the same class it calls as self._x()."""
-    bodies = [info.node]
-    if info.cls is not None:
-        for c in ast.walk(info.node):
-            if isinstance(c, ast.Call) and isinstance(c.func, ast.Attribute) and isinstance(c.func.value, ast.Name) and c.func.value.id == "self" and c.func.attr.startswith("_") and not c.func.attr.startswith("__"):
-                m = analysis.p.find_method(info.cls.qual, c.func.attr)
-                if hasattr(m, "node") and m.node not in bodies:
-                    bodies.append(m.node)
-    return bodies
+    return common.self_helper_bodies(analysis, info)
 
 
 def init_attrs(info, analysis=None) -> Dict[str, str]:
@@ -226,10 +219,15 @@ def run(analysis: Analysis, tier: str) -> RuleResult:
     body = []
     for st in setstate.node.body:
         body.append(st)
-        if isinstance(st, ast.Expr) and isinstance(st.value, ast.Call) and isinstance(st.value.func, ast.Attribute) and isinstance(st.value.func.value, ast.Name) and st.value.func.value.id == "self" and st.value.func.attr.startswith("_") and not st.value.func.attr.startswith("__"):
-            m = p.find_method(sensor.qual, st.value.func.attr)
-            if hasattr(m, "node"):
-                body.extend(x for x in m.node.body if isinstance(x, ast.Assign))
+        if isinstance(st, ast.Expr) and isinstance(st.value, ast.Call):
+            # a private helper called at this point (self._x() or _x(self)): its assignments happen here
+            probe = ast.FunctionDef(name="_probe", args=setstate.node.args, body=[st], decorator_list=[], lineno=st.lineno, col_offset=0)
+            class _Probe:  # minimal FuncInfo stand-in for self_helper_bodies
+                node = probe
+                cls = setstate.cls
+                module = setstate.module
+            for hb in common.self_helper_bodies(analysis, _Probe)[1:]:
+                body.extend(x for x in hb.body if isinstance(x, ast.Assign))
     for st in body:
         if isinstance(st, ast.For):
             loop_line = st.lineno
